@@ -700,12 +700,30 @@ func (g *c18Gen) containedOp(cf protoreflect.FieldDescriptor) (C18Op, bool) {
 	}
 	for try := 0; try < 4; try++ {
 		sub := &c18Gen{r: g.r, tier: g.tier, cur: proto.Clone(inner)}
-		op, _ := sub.genOp(nil)
+		var op C18Op
+		nested := false
+		if icf := inner.ProtoReflect().Descriptor().Fields().ByName("contained"); icf != nil && inner.ProtoReflect().Get(icf).List().Len() > 0 && g.r.p(0.6) {
+			// a contained entry of the contained resource
+			var ok bool
+			if op, ok = sub.containedOp(icf); !ok || op.Contained == nil || op.Contained.Next != nil {
+				continue
+			}
+			nested = true
+		} else {
+			op, _ = sub.genOp(nil)
+			if op.Contained != nil {
+				continue
+			}
+		}
 		i := strings.Index(op.Path, tn)
-		if op.Contained != nil || i < 0 || strings.Contains(op.Path[:i], "$this") || strings.Contains(op.Path[:i], "%context") {
+		if i < 0 || strings.Contains(op.Path[:i], "$this") || strings.Contains(op.Path[:i], "%context") {
 			continue
 		}
-		op.Contained = &C18Contained{Idx: k, Type: tn, Inner: op.Path, Single: single}
+		next := op.Contained
+		if !nested {
+			next = nil
+		}
+		op.Contained = &C18Contained{Idx: k, Type: tn, Inner: op.Path, Single: single, Next: next}
 		if op.Value != nil && g.r.p(0.15) {
 			op.BadUTF8 = true // marshal fault: the write-back into the Any must fail, and leave everything as it was
 		}
